@@ -3,6 +3,8 @@
 mod circomref;
 mod codec;
 mod ffiu;
+mod model;
+mod trees;
 mod noderef;
 mod refhash;
 mod rlnx;
